@@ -111,7 +111,7 @@ from .. import REPO
 
 PY = '/venv/bin/python'
 RX_ARGS = {'save_reactor': False, 'verbose': False, 'no_power_calc': True}
-FAMILIES = ['plain', 'fuel', 'pin', 'hotspot', 'tables', 'core2', 'orif']
+FAMILIES = ['plain', 'fuel', 'pin', 'pinclad', 'hotspot', 'tables', 'core2', 'orif']
 # `orif` carries an [Orificing] section: `python -m dassh` would start the whole
 # optimisation on it, so it takes part in the operation sequences only
 SCHEDULE_FAMILIES = [f for f in FAMILIES if f != 'orif']
@@ -182,8 +182,11 @@ def scenario(family, ntp, first_tp=0, parallel=None, n_cpu=None):
     mats = None
     if family == 'fuel':
         kw['fuelmodel'] = dict(FUELMODEL)
-    elif family == 'pin':
+    elif family in ('pin', 'pinclad'):
         kw['pinmodel'] = dict(PINMODEL)
+        if family == 'pinclad':
+            # the clad film correlation given by the user (nothing for make() to fill in)
+            kw['pinmodel']['htc_params_clad'] = [0.023, 0.8, 0.4, 7.0]
         mats = PINMATS
         # a user film correlation for the duct wall with an exponent above one (a list that lives in the input)
         kw['htc_params_duct'] = [0.0005, 1.05, 0.8, 7.0]
